@@ -119,7 +119,71 @@ FAILING = ("align", "maxof", "minof")
 
 
 def has_failing(t):
-    return isinstance(t, tuple) and (t[0] in FAILING or any(has_failing(x) for x in t[1:]))
+    if not isinstance(t, tuple):
+        return False
+    if t[0] in ("maxof", "minof"):
+        return bool(t[2]) or not t[1] or any(has_failing(x) for x in t[1])
+    return t[0] == "align" or any(has_failing(x) for x in t[1:])
+
+
+def merge_ite(c, a, b):
+    """`if c then a else b` with the condition pushed to the place where the two terms differ (anti-unification)"""
+    if a == b:
+        return a
+    if isinstance(a, tuple) and isinstance(b, tuple) and a[0] == b[0] and len(a) == len(b) and a[0] not in ("int", "var", "acc"):
+        if a[0] in ("maxof", "minof"):
+            # as sets: common scalars stay, the one scalar each side has extra goes under the condition
+            # (a side without an extra one repeats a common scalar, which changes nothing)
+            if set(a[2]) == set(b[2]):
+                common = [x for x in a[1] if x in b[1]]
+                xa = [x for x in a[1] if x not in b[1]]
+                xb = [x for x in b[1] if x not in a[1]]
+                if len(xa) <= 1 and len(xb) <= 1 and (common or (xa and xb)):
+                    ea = xa[0] if xa else common[0]
+                    eb = xb[0] if xb else common[0]
+                    sc = sorted(set(common + [merge_ite(c, ea, eb)]), key=repr)
+                    return (a[0], tuple(sc), a[2])
+        else:
+            diff = [i for i in range(1, len(a)) if a[i] != b[i]]
+            if len(diff) == 1 and is_int_pos(a[0], diff[0]):
+                i = diff[0]
+                return a[:i] + (merge_ite(c, a[i], b[i]),) + a[i + 1:]
+    return ("ite", c, a, b)
+
+
+def is_int_pos(kind, i):
+    """argument `i` of a `kind` term is an integer term (so an integer `ite` may be put there)"""
+    if kind in ("add", "sub", "mul", "neg", "fdiv", "fmod", "floorf", "ceilf", "max2", "min2", "align"):
+        return True
+    if kind == "ite":
+        return i in (2, 3)
+    return False
+
+
+def norm(t):
+    """max / min as n-ary, order-free sets: `max(a, max(b, ..))`, `max(x, max(list))` -> one `maxof`; scalars deduplicated and sorted"""
+    if not isinstance(t, tuple) or t[0] in ("int", "var", "acc", "true", "false", "same"):
+        return t
+    if t[0] in ("max2", "min2"):
+        kind = t[0][:3] + "of"
+        return norm((kind, (t[1], t[2]), ()))
+    if t[0] in ("maxof", "minof"):
+        sc, pc = [], [norm(x) for x in t[2]]
+        for x in t[1]:
+            x = norm(x)
+            if isinstance(x, tuple) and x[0] == t[0]:
+                sc += list(x[1])
+                pc += list(x[2])
+            else:
+                sc.append(x)
+        sc = sorted(set(sc), key=repr)
+        pc = sorted(set(pc), key=repr)
+        if len(sc) == 1 and not pc:
+            return sc[0]
+        return (t[0], tuple(sc), tuple(pc))
+    if t[0] == "ite":
+        return merge_ite(norm(t[1]), norm(t[2]), norm(t[3]))
+    return tuple([t[0]] + [norm(x) for x in t[1:]])
 
 
 # ------------------------------------------------------------------------------------------------ Lean text of terms
@@ -147,6 +211,11 @@ def lean_int(t, binds=None):
         return f"({k[:3]} {lean_int(t[1], binds)} {lean_int(t[2], binds)})"
     if k == "ite":
         return f"(if {lean_bool(t[1], binds)} then {lean_int(t[2], binds)} else {lean_int(t[3], binds)})"
+    if k in ("maxof", "minof") and not t[2] and t[1]:
+        r = lean_int(t[1][0], binds)
+        for x in t[1][1:]:
+            r = f"({k[:3]} {r} {lean_int(x, binds)})"
+        return r
     if k in FAILING:
         if binds is None:
             raise Untr("a partial operation (align / max / min of a list) in a position that cannot fail")
@@ -191,12 +260,14 @@ def lean_failing(t, binds):
     return f"ofOption ({t[0][:3]}Of ({lst}))"
 
 
-def lean_res_ordered(t):
-    """like lean_res, but operands of a partial operation that are themselves partial are bound first"""
+def lean_res_ordered(t, normalised=False):
+    """Lean text of type `PyRes Int`; operands of a partial operation that are themselves partial are bound first"""
+    if not normalised:
+        t = norm(t)
     if t[0] == "ite" and (has_failing(t[2]) or has_failing(t[3])):
         if has_failing(t[1]):
             raise Untr("partial operation inside a condition")
-        return f"(if {lean_bool(t[1])} then {lean_res_ordered(t[2])} else {lean_res_ordered(t[3])})"
+        return f"(if {lean_bool(t[1])} then {lean_res_ordered(t[2], True)} else {lean_res_ordered(t[3], True)})"
     order = []
 
     def visit(x):
@@ -208,7 +279,7 @@ def lean_res_ordered(t):
         else:
             for y in x[1:]:
                 visit(y)
-        if x[0] in FAILING and x not in [b for _, b in order]:
+        if (x[0] == "align" or (x[0] in ("maxof", "minof") and (x[2] or not x[1]))) and x not in [b for _, b in order]:
             order.append((f"r{len(order) + 1}", x))
 
     visit(t)
@@ -918,7 +989,7 @@ def gen_BinImageGeo() -> None:
         v = sym.inline(fn, geo_obj(), [IntV(V("alignment"))], {})
         t = sym.int_of(v)
         check_vars(t, ["absAddr", "alignment"])
-        return "/-- `BinaryImage.aligned_start(alignment)` -/\ndef genAlignedStart (absAddr alignment : Int) : Int :=\n  " + lean_int(t)
+        return "/-- `BinaryImage.aligned_start(alignment)` -/\ndef genAlignedStart (absAddr alignment : Int) : Int :=\n  " + lean_int(norm(t))
 
     part("genAlignedStart", "Int → Int → Int", b_astart)
 
@@ -927,7 +998,7 @@ def gen_BinImageGeo() -> None:
         v = sym.inline(fn, geo_obj(), [IntV(V("alignment"))], {})
         t = sym.int_of(v)
         check_vars(t, ["absAddr", "selfLen", "alignment"])
-        return "/-- `BinaryImage.aligned_length(alignment)` -/\ndef genAlignedLength (absAddr selfLen alignment : Int) : Int :=\n  " + lean_int(t)
+        return "/-- `BinaryImage.aligned_length(alignment)` -/\ndef genAlignedLength (absAddr selfLen alignment : Int) : Int :=\n  " + lean_int(norm(t))
 
     part("genAlignedLength", "Int → Int → Int → Int", b_alen)
 
@@ -1087,7 +1158,7 @@ def gen_BinImageGeo() -> None:
             raise Untr("append_image does not set the offset and then call add_image")
         t = sym.int_of(offs[-1])
         check_vars(t, ["selfLen"])
-        return "/-- `append_image`: the offset given to the image before it is added -/\ndef genAppendOffset (selfLen : Int) : Int :=\n  " + lean_int(t)
+        return "/-- `append_image`: the offset given to the image before it is added -/\ndef genAppendOffset (selfLen : Int) : Int :=\n  " + lean_int(norm(t))
 
     part("genAppendOffset", "Int → Int", b_append)
 
@@ -1126,7 +1197,7 @@ def gen_BinImageGeo() -> None:
             raise Untr("update_offsets does not update every child's offset exactly once")
         t = subst(sym.int_of(ts[0]), V("k.1"), V("childOff"))
         check_vars(t, ["childOff", "m"])
-        return "/-- `update_offsets`: new offset of a child (`m` = `min_offset`) -/\ndef genUpdChildOffset (childOff m : Int) : Int :=\n  " + lean_int(t)
+        return "/-- `update_offsets`: new offset of a child (`m` = `min_offset`) -/\ndef genUpdChildOffset (childOff m : Int) : Int :=\n  " + lean_int(norm(t))
 
     part("genUpdChildOffset", "Int → Int → Int", b_updchild)
 
@@ -1136,7 +1207,7 @@ def gen_BinImageGeo() -> None:
             raise Untr("update_offsets does not update the own offset exactly once")
         t = sym.int_of(ts[0])
         check_vars(t, ["offset", "m"])
-        return "/-- `update_offsets`: new offset of the image itself -/\ndef genUpdSelfOffset (offset m : Int) : Int :=\n  " + lean_int(t)
+        return "/-- `update_offsets`: new offset of the image itself -/\ndef genUpdSelfOffset (offset m : Int) : Int :=\n  " + lean_int(norm(t))
 
     part("genUpdSelfOffset", "Int → Int → Int", b_updself)
 
@@ -1215,7 +1286,7 @@ def gen_BinImageGeo() -> None:
             if kind not in sites:
                 raise Untr(f"no 'offset' lookup found for {kind}")
             mode, t = sites[kind]
-            d = lean_int(t)
+            d = lean_int(norm(t))
             if mode == "explicit-wins":
                 body = f"match given with\n  | some v => v\n  | none => {d}"
             else:
